@@ -21,8 +21,8 @@ H = 'des::net::runtime::unwind::Harness'
 EV = 'des::net::runtime::events::'
 
 
-def r1_drain(ctx):
-    ctx.set_rule('C06.R1')
+def r1_drain(ctx, rule='C06.R1'):
+    ctx.set_rule(rule)
     P = ctx.P
     fe = ctx.anchor(H + '::exec')
     if not fe:
@@ -37,7 +37,22 @@ def r1_drain(ctx):
     if not ys:
         ctx.violation('no-yield:%s' % fe.key, 'the harness future finishes right after the callback without yielding: tasks woken by the callback are not polled before simulated time advances', fe.where())
         return
-    ctx.check(bool(cb), 'callback-in-future', 'the module callback runs inside the future driven by LocalSet::block_on', fe.where())
+    # ... inside: the call of the callback is part of the very future handed to block_on (an async block), so that it runs with the
+    # runtime's context - seeded RNG, current task set - installed, not merely "entered"
+    in_future = False
+    for g_bo, s_bo in bo:
+        for a_ in s_bo.args:
+            t_ = peel(g_bo.expr_operand(a_, s_bo.b, 'T'))
+            if t_[0] == 'agg' and str(t_[1]).startswith('closure:'):
+                k_ = str(t_[1])[len('closure:'):]
+                if any(g_cb.key == k_ or g_cb.key.startswith(k_ + '::') for g_cb, _ in cb):
+                    in_future = True
+    if not in_future and cb and bo:
+        # the future built beforehand (`let turn = async move { f(); .. }`) and handed over by name: the callback is then called in a
+        # coroutine body of its own - neither in exec itself nor in the body that calls block_on
+        bodies_bo = {g_.key for g_, _ in bo}
+        in_future = all(g_cb.kind == 'closure' and g_cb.key not in bodies_bo and g_cb.key != fe.key for g_cb, _ in cb)
+    ctx.check(bool(cb) and in_future, 'callback-in-future', 'the module callback runs inside the future driven by LocalSet::block_on', fe.where())
     for g, s in ys:
         if cb and cb[0][0] is g:
             ctx.check(g.dominates(cb[0][1].b, s.b), 'yield-after-callback', 'the yield happens after the callback (so that tasks it woke are polled in the same instant)', s.where())
